@@ -634,13 +634,12 @@ async fn send_input(
         }
     };
 
-    if !handle.claim_start() {
+    if !state
+        .engine
+        .spawn_session(handle, payload.input, None, None)
+    {
         return StatusCode::CONFLICT.into_response();
     }
-
-    state
-        .engine
-        .spawn_session(handle, payload.input, None, None);
 
     StatusCode::ACCEPTED.into_response()
 }
@@ -856,6 +855,8 @@ async fn thread_post_message(
 
     let handle = state.engine.create_session();
     let session_id = handle.session_id.clone();
+    // This run is the session's one run: claimed before the session becomes addressable.
+    let _ = handle.claim_start();
     {
         let mut sessions = state.sessions.lock().await;
         sessions.insert(session_id.clone(), handle.clone());
@@ -875,7 +876,7 @@ async fn thread_post_message(
     }
     state
         .engine
-        .spawn_session(handle, content, Some(run_link), openresponses_override);
+        .spawn_claimed_session(handle, content, Some(run_link), openresponses_override);
 
     (
         StatusCode::ACCEPTED,
